@@ -8,7 +8,7 @@ TARGETS = ['Properties/C16.vo', 'Tie/Junctors.vo', 'Run/ObsC16.vo']
 THEOREMS = ['C16_table_total_exclusive', 'C16_unary_table_total_exclusive', 'C16_entries_are_pairs_of_contingent',
             'C16_sorted_by_rank', 'C16_implication_orientation']
 RUN_MODULE = 'Run.ObsC16'
-RULE = ('every context of EXH(12) (quick; 0/1 contingent property, only-orthogonal, equal and complementary columns all occur) '
+RULE = ('every context of EXH(10) (quick; EXH(12) thorough; 0/1 contingent property, only-orthogonal, equal and complementary columns all occur) '
         '/ EXH(16 with <=6 columns) thorough + FAM + WIDE + RND; observation = (kind, left, right, order) of every entry for both '
         'include_unary values, plus that str()/tostring()/print of the result and of each entry are defined and have the documented '
         'layout; non-trivial = >=3 kinds present; distinct by table')
@@ -61,10 +61,22 @@ def observe(cx, impl=None):
 
 
 def cases(tier, seed):
-    ctxs = util.contexts_for(tier, seed, exh_quick=12, exh_thorough=12, rnd_quick=300, rnd_thorough=3000)
+    ctxs = util.contexts_for(tier, seed, exh_quick=10, exh_thorough=12, rnd_quick=300, rnd_thorough=3000)
     if tier == 'thorough':
         import itertools
         ctxs += [c for c in gen.exh(16) if c.nM <= 6 and c.nG * c.nM > 12][::7]
+    # unusual but legal labels: the empty string and short digit strings as property names
+    extra = []
+    for i, c in enumerate(list(gen.exh(9))[11::53]):
+        if c.nM >= 2:
+            v = gen.Ctx(c.rows, c.nM, c.tag + ':odd-labels')
+            v.objects = [f'o{g}' for g in range(c.nG)]
+            names = ['0', '', ' ', 'False', '1', 'None', '00', '-', 'p8']
+            k = i % c.nM
+            v.properties = [names[(j + i) % len(names)] for j in range(c.nM)]
+            if len(set(v.properties)) == c.nM:
+                extra.append(v)
+    ctxs += extra
     impls = util.prebuild(ctxs)
     out = []
     for cx, impl in zip(ctxs, impls):
